@@ -32,11 +32,31 @@
       C01_ebsim_dec_start_face / C01_ebsim_sim_step_start   proved: the interior start face (forward decoder lemma, SIM preserved;
                                          the two LeftMostCorner lookups via the fan walk [fan_lmc_t]); the classes allow any
                                          number of components, boundary and interior start configurations
-    NOT proved: _no_event (S without split events; the decoder's vertex compaction), the general theorem (split events). *)
+      C01_ebsim_trace_steps              proved: the small-step facts between consecutive configurations of the trace (what each
+                                         symbol does to the corner stack, incl. the pops of already visited entries)
+      C01_ebsim_dec_step_S / C01_ebsim_sim_step_S / C01_ebsim_S_separation
+                                         proved: symbol S without split event: forward decoder lemma (the SwingLeft relabelling loop
+                                         neither rejects nor leaves the arrays, n is relabelled to p), SIM preserved (vertex clause
+                                         under relabelling), and p <> n from what the encoder saw at the tip vertex ([Sbreak])
+      C01_ebsim_vcit_no_reject / C01_ebsim_compaction
+                                         proved: the decoder's vertex compaction (remove_invalid_vertices = true) on a table in
+                                         which SwingLeft keeps the vertex: every VertexCornersIterator walk passes its vertex
+                                         checks, the compaction ACCEPTS, keeps Opposite, and renames the vertices INJECTIVELY on
+                                         the created corners ([eb_iso] is up to a vertex bijection, so it is preserved)
+      C01_ebsim_dec_roundtrip_script     proved: the decoder on a script (corners Q, symbols Y with the facts [script_at] /
+                                         [start_ok]) with C, S (no split event), L, R, E, any number of runs and interior start
+                                         faces, EVERY remove_invalid_vertices: accepts with a table isomorphic to the encoder's
+      C01_ebsim_roundtrip_no_event_partial   proved for EVERY remove_invalid_vertices (compaction included), ONE run,
+                                         S symbols without split events, UNDER THE PREMISE [ndp] (the stack discipline of the
+                                         encoder's trace has no pop of an already visited entry; decidable [ndp_b], it holds on
+                                         the grid discs of the Examples; every encoding with a split event violates it)
+    NOT proved: [ndp] from `no split event` (the face_to_split_symbol_map_ argument); the encoder-side facts [script_at] for S
+    in several runs (the decoder side [C01_ebsim_dec_roundtrip_script] already covers them); split events (general theorem). *)
 From Coq Require Import ZArith List Bool.
 From Draco Require Import Model.CornerTable Model.EbEncoder Model.EbTrace Proofs.CornerTable_proofs Proofs.EbEncoder_proofs.
-From Draco Require Import Proofs.EbTrace_proofs Proofs.EbSimEnc_proofs Proofs.EbSimDec_proofs Proofs.EbSim_proofs.
-From Draco Require Model.Edgebreaker Proofs.Edgebreaker_proofs Proofs.Edgebreaker_fan_proofs.
+From Draco Require Import Proofs.EbTrace_proofs Proofs.EbSimEnc_proofs Proofs.EbSimDec_proofs Proofs.EbSimS_proofs Proofs.EbSimLoop_proofs Proofs.EbSim_proofs.
+From Draco Require Model.Edgebreaker Proofs.Edgebreaker_proofs Proofs.Edgebreaker_fan_proofs Proofs.Edgebreaker_compact_proofs
+  Proofs.EbSimCompact_proofs.
 Import ListNotations.
 
 (** ** (1) the trace presentation *)
@@ -267,6 +287,106 @@ Theorem C01_ebsim_roundtrip_ERL : forall faces t o rm, ct_create faces = Some t 
 Proof. exact ebsim_roundtrip_ERL. Qed.
 Print Assumptions C01_ebsim_roundtrip_ERL.
 
+
+(** ** (6) symbol S without split events *)
+Theorem C01_ebsim_trace_steps : forall c2v opp nv niso ndeg o tr, eb_encode_tr c2v opp nv niso ndeg = EOk (o, tr) ->
+  forall i cf cf', nth_error tr i = Some cf -> nth_error tr (S i) = Some cf' -> tstep opp cf cf'.
+Proof. exact trace_steps. Qed.
+Print Assumptions C01_ebsim_trace_steps.
+
+Local Open Scope Z_scope.
+Theorem C01_ebsim_dec_step_S : forall NC maxv rm s f sid a b rest, Edgebreaker_proofs.W NC maxv f s -> Edgebreaker_fan_proofs.FI f s ->
+  3 * f + 3 <= NC -> Edgebreaker.stack s = b :: a :: rest -> Edgebreaker.find_split sid (Edgebreaker.splits s) = None ->
+  a <> b -> Edgebreaker.copp s a = -1 -> Edgebreaker.copp s b = -1 ->
+  let p := Edgebreaker.c2v s (Edgebreaker.prev_c a) in let r := Edgebreaker.c2v s (Edgebreaker.prev_c b) in
+  let n := Edgebreaker.c2v s (Edgebreaker.next_c b) in
+  p <> n -> r <> n ->
+  exists s', Edgebreaker.step_S NC rm s f sid = Edgebreaker.Ok s' /\
+    Edgebreaker.copp s' = Edgebreaker.copp (s_glued s f a b) /\
+    (forall c, 0 <= c < 3 * f + 3 ->
+       Edgebreaker.c2v s' c = if Edgebreaker.c2v (s_glued s f a b) c =? n then p else Edgebreaker.c2v (s_glued s f a b) c) /\
+    Edgebreaker.nv s' = Edgebreaker.nv s /\ Edgebreaker.stack s' = 3 * f :: rest /\
+    Edgebreaker.events s' = Edgebreaker.events s /\ Edgebreaker.splits s' = Edgebreaker.splits s /\
+    Edgebreaker.invalid s' = (if rm then n :: Edgebreaker.invalid s else Edgebreaker.invalid s) /\
+    Edgebreaker.nfaces s' = Edgebreaker.nfaces s.
+Proof. exact dec_step_S. Qed.
+Print Assumptions C01_ebsim_dec_step_S.
+
+Theorem C01_ebsim_sim_step_S : forall c2v opp nf, length c2v = (3 * nf)%nat -> opp_ok c2v opp -> forall Q,
+  (forall j, (j < length Q)%nat -> (nth j Q 0%nat < 3 * nf)%nat /\ is_degenerated c2v (nth j Q 0%nat / 3) = false) ->
+  NoDup (map (fun c => (c / 3)%nat) Q) -> forall NC maxv k d d' ja,
+  (k < length Q)%nat -> (1 <= k)%nat -> (ja < k)%nat -> SIM c2v opp Q k d -> Edgebreaker_proofs.W NC maxv (Z.of_nat k) d ->
+  let a := dco ja 0 in let b := dco (k - 1) 0 in
+  Edgebreaker.copp d' = Edgebreaker.copp (s_glued d (Z.of_nat k) a b) ->
+  (forall c, 0 <= c < 3 * Z.of_nat k + 3 ->
+     Edgebreaker.c2v d' c = if Edgebreaker.c2v (s_glued d (Z.of_nat k) a b) c =? Edgebreaker.c2v d (Edgebreaker.next_c b)
+                            then Edgebreaker.c2v d (Edgebreaker.prev_c a) else Edgebreaker.c2v (s_glued d (Z.of_nat k) a b) c) ->
+  Edgebreaker.nfaces d' = Z.of_nat (S k) ->
+  opp_at opp (eco Q k 1) = Some (eco Q (k - 1) 0) -> opp_at opp (eco Q k 2) = Some (eco Q ja 0) ->
+  ncr opp Q k (eco Q k 0) ->
+  SIM c2v opp Q (S k) d'.
+Proof. exact SIM_S. Qed.
+Print Assumptions C01_ebsim_sim_step_S.
+
+Theorem C01_ebsim_S_separation : forall c2v opp nf, length c2v = (3 * nf)%nat -> opp_ok c2v opp -> forall Q,
+  (forall j, (j < length Q)%nat -> (nth j Q 0%nat < 3 * nf)%nat /\ is_degenerated c2v (nth j Q 0%nat / 3) = false) ->
+  NoDup (map (fun c => (c / 3)%nat) Q) -> forall k d ja,
+  (k < length Q)%nat -> (1 <= k)%nat -> (ja < k)%nat -> SIM c2v opp Q k d -> Edgebreaker_fan_proofs.FI (Z.of_nat k) d ->
+  one_fan c2v opp -> opp_at opp (eco Q k 1) = Some (eco Q (k - 1) 0) -> opp_at opp (eco Q k 2) = Some (eco Q ja 0) ->
+  Sbreak c2v opp nf Q k ->
+  Edgebreaker.c2v d (dco ja 2) <> Edgebreaker.c2v d (dco (k - 1) 1).
+Proof. exact S_sep. Qed.
+Print Assumptions C01_ebsim_S_separation.
+Local Close Scope Z_scope.
+
+(** the vertex compaction *)
+Local Open Scope Z_scope.
+Theorem C01_ebsim_vcit_no_reject : forall NC maxv s f src iv, Edgebreaker_proofs.W NC maxv f s -> EbSimCompact_proofs.LABZ f s ->
+  0 <= src < Edgebreaker.nv s -> Edgebreaker.vc s src <> -1 -> Edgebreaker.c2v s (Edgebreaker.vc s src) = src ->
+  0 <= iv < Edgebreaker.nv s -> iv <> src ->
+  Edgebreaker.vcit_loop NC (Edgebreaker.vcit_fuel NC) s (Edgebreaker.vc s src) (Edgebreaker.vc s src) true src iv <> Edgebreaker.Reject.
+Proof. exact EbSimCompact_proofs.vcit_norej. Qed.
+Print Assumptions C01_ebsim_vcit_no_reject.
+
+Theorem C01_ebsim_compaction : forall NC maxv ivs k s f, Edgebreaker_proofs.W NC maxv f s -> Edgebreaker_compact_proofs.FJ f s ->
+  EbSimCompact_proofs.LABZ f s ->
+  (forall c, 0 <= c < 3 * f -> 0 <= Edgebreaker.c2v s c < Z.of_nat k) ->
+  Forall (fun v => 0 <= v < Edgebreaker.nv s /\ Edgebreaker.vc s v = -1) ivs -> NoDup ivs -> Z.of_nat k <= Edgebreaker.nv s ->
+  (ivs = [] \/ 0 < f) ->
+  exists k' s', Edgebreaker.compact NC maxv ivs k s = Edgebreaker.Ok (k', s') /\
+    Edgebreaker.copp s' = Edgebreaker.copp s /\ Edgebreaker.nfaces s' = Edgebreaker.nfaces s /\
+    forall x y, 0 <= x < 3 * f -> 0 <= y < 3 * f ->
+      (Edgebreaker.c2v s' x = Edgebreaker.c2v s' y <-> Edgebreaker.c2v s x = Edgebreaker.c2v s y).
+Proof. exact EbSimCompact_proofs.compact_full. Qed.
+Print Assumptions C01_ebsim_compaction.
+Local Close Scope Z_scope.
+
+(** the decoder along a script, every remove_invalid_vertices *)
+Theorem C01_ebsim_dec_roundtrip_script : forall c2v opp nf, length c2v = 3 * nf -> opp_ok c2v opp ->
+  forall Q, (forall j, j < length Q -> nth j Q 0 < 3 * nf /\ is_degenerated c2v (nth j Q 0 / 3) = false) ->
+  NoDup (map (fun c => c / 3) Q) ->
+  forall (NC maxv : Z) (rm : bool) (Y : list Z), NC = (3 * Z.of_nat (length Q))%Z -> length Y <= length Q -> (cntv Y <= maxv)%Z ->
+  one_fan c2v opp ->
+  forall B, (forall f, f < nf -> is_degenerated c2v f = false -> In f (map (fun c => c / 3) Q)) ->
+  (forall j, j < length Y -> script_at c2v opp nf Q Y j) -> start_ok c2v opp nf Q Y B ->
+  exists n s, Edgebreaker.eb_core NC maxv (Z.of_nat (length Q)) rm Y [] (Edgebreaker.bits_of_list B) = Edgebreaker.Ok (n, s) /\
+              eb_iso c2v opp Q (Edgebreaker.c2v s) (Edgebreaker.copp s).
+Proof. exact dec_roundtrip_rm. Qed.
+Print Assumptions C01_ebsim_dec_roundtrip_script.
+
+Theorem C01_ebsim_roundtrip_no_event_partial : forall c2v opp nf nv niso ndeg o tr rm maxv,
+  length c2v = 3 * nf -> opp_ok c2v opp -> (forall c, c < 3 * nf -> vtx c2v c < nv) -> one_fan c2v opp ->
+  eb_encode_tr c2v opp nv niso ndeg = EOk (o, tr) -> class_noev1 o = true -> ndp opp tr -> (cntv (rev (o_syms o)) <= maxv)%Z ->
+  let F := Z.of_nat (length (o_pcc o)) in
+  exists n s, Edgebreaker.eb_core (3 * F) maxv F rm (rev (o_syms o)) (o_events o) (Edgebreaker.bits_of_list (o_bits o)) = Edgebreaker.Ok (n, s) /\
+              eb_iso c2v opp (o_pcc o) (Edgebreaker.c2v s) (Edgebreaker.copp s).
+Proof. exact ebsim_roundtrip_noev1_partial. Qed.
+Print Assumptions C01_ebsim_roundtrip_no_event_partial.
+
+Theorem C01_ebsim_ndp_check_sound : forall opp tr, ndp_b opp tr = true -> ndp opp tr.
+Proof. exact ndp_b_sound. Qed.
+Print Assumptions C01_ebsim_ndp_check_sound.
+
 (** ** Examples: the classes are inhabited by real meshes; the trace on the Examples of Properties_EBENC.v *)
 Definition in_class (cls : enc_out -> bool) faces : option (bool * bool * bool) :=
   match ct_create faces with
@@ -336,4 +456,35 @@ Example ebsim_trace_grid_with_hole_stack :
   | Some (l, b, x, y) => (map (fun x => snd x) l, b) = ([1;2;2;2;3;2;2;2;2;2;2;2;3;2;2;2], true) /\ x = y
   | None => False
   end.
+Proof. vm_compute. split; reflexivity. Qed.
+
+(** the no-event class with S symbols: grid discs; the premise [ndp] holds on their traces; a grid with a hole has a split event *)
+Definition in_noev faces :=
+  match ct_create faces with
+  | Some t => match eb_encode_ct_tr t with
+              | EOk (o, tr) => Some (existsb (Z.eqb 1) (o_syms o), class_noev1 o, ndp_b (ct_opp t) tr)
+              | _ => None
+              end
+  | None => None
+  end.
+Example ebsim_noev_grid3x3 : in_noev (grid 3 3 false) = Some (true, true, true).
+Proof. vm_compute. reflexivity. Qed.
+Example ebsim_noev_grid4x4 : in_noev (grid 4 4 false) = Some (true, true, true).
+Proof. vm_compute. reflexivity. Qed.
+Example ebsim_noev_not_grid_with_hole : in_noev (firstn 8 (grid 3 3 false) ++ skipn 10 (grid 3 3 false)) = Some (true, false, false).
+Proof. vm_compute. reflexivity. Qed.
+
+(** the instances of [C01_ebsim_roundtrip_no_event_partial] on the grid discs, executed, with the vertex compaction
+    (remove_invalid_vertices = true) and without *)
+Definition noev_roundtrip faces (rm : bool) :=
+  match ct_create faces with
+  | Some t => match eb_encode_ct t with
+              | EOk o => Some (eb_roundtrip_b (ct_c2v t) (ct_opp t) o rm)
+              | _ => None
+              end
+  | None => None
+  end.
+Example ebsim_noev_grid3x3_compaction : noev_roundtrip (grid 3 3 false) true = Some true /\ noev_roundtrip (grid 3 3 false) false = Some true.
+Proof. vm_compute. split; reflexivity. Qed.
+Example ebsim_noev_grid4x4_compaction : noev_roundtrip (grid 4 4 false) true = Some true /\ noev_roundtrip (grid 4 4 false) false = Some true.
 Proof. vm_compute. split; reflexivity. Qed.
